@@ -89,6 +89,16 @@ func genCfg(r *vs.Rand, allowRolling bool) scfg {
 	if r.Chance(25) {
 		cfg.Customize = true
 		cfg.Related = []childSpec{{APIVersion: "v1", Resource: "secrets", Kind: "Secret", Namespaced: true}}
+		hasGlobals := false
+		for _, c := range cfg.Children {
+			if c.Resource == "globals" {
+				hasGlobals = true
+			}
+		}
+		if !hasGlobals && r.Chance(40) {
+			// a cluster-scoped related resource: a namespaced parent is shown nothing of it, whatever the rule says
+			cfg.Related = append(cfg.Related, childSpec{APIVersion: "example.com/v1", Resource: "globals", Kind: "Global", Namespaced: false})
+		}
 	}
 	return cfg
 }
@@ -396,6 +406,32 @@ func buildScenario(r *vs.Rand, cfg scfg) *scenario {
 			case 6: // neither: select by (empty) labels = everything
 			}
 			rules = append(rules, rule)
+		}
+		if len(cfg.Related) > 1 {
+			rule := vs.M{"apiVersion": "example.com/v1", "resource": "globals"}
+			switch r.Intn(4) {
+			case 0:
+				rule["names"] = []interface{}{"g1"}
+			case 1:
+				rule["labelSelector"] = vs.M{"matchLabels": vs.M{"use": "yes"}}
+			case 2:
+				rule["names"] = []interface{}{"g1", "g2"}
+			case 3: // everything
+			}
+			if r.Bool() {
+				rules = append(rules, rule)
+			} else {
+				rules = append([]interface{}{rule}, rules...)
+			}
+			for _, n := range []string{"g1", "g2"} {
+				if r.Chance(70) {
+					lbl := vs.M{}
+					if r.Bool() {
+						lbl["use"] = "yes"
+					}
+					w.sim.Put("example.com", "globals", vs.M{"apiVersion": "example.com/v1", "kind": "Global", "metadata": vs.M{"name": n, "labels": lbl}, "spec": vs.M{"k": r.Pick([]string{"a", "b"})}})
+				}
+			}
 		}
 		if r.Chance(8) {
 			rules = append(rules, nil)
